@@ -148,6 +148,11 @@ inductive Event where
   | warn (what : String)
   deriving Inhabited
 
+/-- a log record (emitted or suppressed by the option switch) -/
+def Event.isLog : Event → Bool
+  | .log _ _ => true
+  | _ => false
+
 structure St where
   /-- cache id ↦ (fingerprint ↦ value) -/
   caches : List (Nat × List (V × V)) := []
